@@ -79,18 +79,26 @@ var atColKinds = map[string]colKind{
 	"text": {"text", func(n string) mm.Column { return mm.Column{Name: n, T: mm.TChar, DataType: "text", ColType: "text"} },
 		func(r *vc.Rand) interface{} { return strings.Repeat("lorem ipsum ", 1+r.Intn(30)) }},
 	// character types that the AT image builder scans into raw bytes (everything outside its VARCHAR/CHAR/TEXT case)
-	"mediumtext": {"mediumtext", func(n string) mm.Column { return mm.Column{Name: n, T: mm.TChar, DataType: "mediumtext", ColType: "mediumtext"} },
-		func(r *vc.Rand) interface{} { return []string{"draft", "", "名前 text", strings.Repeat("medium ", 1+r.Intn(20)), "AQID"}[r.Intn(5)] }},
+	"mediumtext": {"mediumtext", func(n string) mm.Column {
+		return mm.Column{Name: n, T: mm.TChar, DataType: "mediumtext", ColType: "mediumtext"}
+	},
+		func(r *vc.Rand) interface{} {
+			return []string{"draft", "", "名前 text", strings.Repeat("medium ", 1+r.Intn(20)), "AQID"}[r.Intn(5)]
+		}},
 	"enum": {"enum", func(n string) mm.Column {
 		return mm.Column{Name: n, T: mm.TChar, DataType: "enum", ColType: "enum('draft','open','closed')"}
 	}, func(r *vc.Rand) interface{} { return []string{"draft", "open", "closed"}[r.Intn(3)] }},
 	"double": {"double", func(n string) mm.Column { return mm.Column{Name: n, T: mm.TDouble, ColType: "double"} },
-		func(r *vc.Rand) interface{} { return []float64{0, 1.5, -2.25, 1e-300, 1e300, 3.141592653589793, 100}[r.Intn(7)] }},
+		func(r *vc.Rand) interface{} {
+			return []float64{0, 1.5, -2.25, 1e-300, 1e300, 3.141592653589793, 100}[r.Intn(7)]
+		}},
 	"float": {"float", func(n string) mm.Column { return mm.Column{Name: n, T: mm.TFloat, ColType: "float"} },
 		func(r *vc.Rand) interface{} { return []float64{0, 1.5, -2.25, 0.1, 16777216}[r.Intn(5)] }},
 	"decimal": {"decimal", func(n string) mm.Column {
 		return mm.Column{Name: n, T: mm.TDecimal, Len: 12, Scale: 2, ColType: "decimal(12,2)"}
-	}, func(r *vc.Rand) interface{} { return []string{"0.00", "12.30", "-99.99", "1234567890.12", "5.50"}[r.Intn(5)] }},
+	}, func(r *vc.Rand) interface{} {
+		return []string{"0.00", "12.30", "-99.99", "1234567890.12", "5.50"}[r.Intn(5)]
+	}},
 	"datetime6": {"datetime6", func(n string) mm.Column { return mm.Column{Name: n, T: mm.TDateTime, Fsp: 6, ColType: "datetime(6)"} },
 		func(r *vc.Rand) interface{} {
 			return time.Date(2020+r.Intn(5), time.Month(1+r.Intn(12)), 1+r.Intn(28), r.Intn(24), r.Intn(60), r.Intn(60), r.Intn(1000000)*1000, time.UTC)
@@ -100,15 +108,23 @@ var atColKinds = map[string]colKind{
 			return time.Date(2020+r.Intn(5), time.Month(1+r.Intn(12)), 1+r.Intn(28), r.Intn(24), r.Intn(60), r.Intn(60), 0, time.UTC)
 		}},
 	"date": {"date", func(n string) mm.Column { return mm.Column{Name: n, T: mm.TDate, ColType: "date"} },
-		func(r *vc.Rand) interface{} { return time.Date(2020+r.Intn(5), time.Month(1+r.Intn(12)), 1+r.Intn(28), 0, 0, 0, 0, time.UTC) }},
+		func(r *vc.Rand) interface{} {
+			return time.Date(2020+r.Intn(5), time.Month(1+r.Intn(12)), 1+r.Intn(28), 0, 0, 0, 0, time.UTC)
+		}},
 	"timestamp3": {"timestamp3", func(n string) mm.Column { return mm.Column{Name: n, T: mm.TTimestamp, Fsp: 3, ColType: "timestamp(3)"} },
 		func(r *vc.Rand) interface{} {
 			return time.Date(2020+r.Intn(5), time.Month(1+r.Intn(12)), 1+r.Intn(28), r.Intn(24), r.Intn(60), r.Intn(60), r.Intn(1000)*1000000, time.UTC)
 		}},
 	"blob": {"blob", func(n string) mm.Column { return mm.Column{Name: n, T: mm.TBin, DataType: "blob", ColType: "blob"} },
-		func(r *vc.Rand) interface{} { return [][]byte{{0, 1, 2, 0xff}, {}, []byte("plain"), {0x27, 0x5c, 0x00}}[r.Intn(4)] }},
-	"varbinary": {"varbinary", func(n string) mm.Column { return mm.Column{Name: n, T: mm.TBin, Len: 64, DataType: "varbinary", ColType: "varbinary(64)"} },
-		func(r *vc.Rand) interface{} { return [][]byte{{9, 8, 7}, []byte("bin"), {0xde, 0xad, 0xbe, 0xef}}[r.Intn(3)] }},
+		func(r *vc.Rand) interface{} {
+			return [][]byte{{0, 1, 2, 0xff}, {}, []byte("plain"), {0x27, 0x5c, 0x00}}[r.Intn(4)]
+		}},
+	"varbinary": {"varbinary", func(n string) mm.Column {
+		return mm.Column{Name: n, T: mm.TBin, Len: 64, DataType: "varbinary", ColType: "varbinary(64)"}
+	},
+		func(r *vc.Rand) interface{} {
+			return [][]byte{{9, 8, 7}, []byte("bin"), {0xde, 0xad, 0xbe, 0xef}}[r.Intn(3)]
+		}},
 }
 
 // value column kinds the plain workloads draw from ("safe" = no catalogue defect is known for them on this tree)
@@ -223,11 +239,11 @@ func atGenTable(r *vc.Rand, name, pkKind string, kinds []string, nv, nrows int, 
 // ---------- statements ----------
 
 type atStmt struct {
-	Kind    string `json:"kind"` // insert update delete upsert select_for_update
-	SQL     string `json:"sql"`
-	Args    []tval `json:"args,omitempty"`
-	Table   string `json:"table"`
-	Feat    map[string]string `json:"features"`
+	Kind  string            `json:"kind"` // insert update delete upsert select_for_update
+	SQL   string            `json:"sql"`
+	Args  []tval            `json:"args,omitempty"`
+	Table string            `json:"table"`
+	Feat  map[string]string `json:"features"`
 }
 
 func pkWhere(t *atTable, row []interface{}, useParams bool) (string, []tval) {
@@ -280,9 +296,9 @@ func (t *atTable) valueCols() []int {
 }
 
 type atStmtOpts struct {
-	params    bool // bound parameters (false: literals)
-	rowsClass string // "0" "1" "many"
-	shuffleCols bool // INSERT: column list in another order than the table's
+	params      bool   // bound parameters (false: literals)
+	rowsClass   string // "0" "1" "many"
+	shuffleCols bool   // INSERT: column list in another order than the table's
 }
 
 // atGenUpdate: UPDATE t SET <1..2 value columns> WHERE ...
@@ -636,18 +652,18 @@ func indexOfCol(t *atTable, name string) int {
 // ---------- programs ----------
 
 type atGroup struct {
-	Explicit bool     `json:"explicit_tx"`
-	Pinned   bool     `json:"pinned_conn,omitempty"`   // run the statements on one pinned *sql.Conn
-	KeepGoing bool    `json:"keep_going,omitempty"`    // a failed statement does not end the business function (retry-style code)
-	Stmts    []atStmt `json:"stmts"`
+	Explicit  bool     `json:"explicit_tx"`
+	Pinned    bool     `json:"pinned_conn,omitempty"` // run the statements on one pinned *sql.Conn
+	KeepGoing bool     `json:"keep_going,omitempty"`  // a failed statement does not end the business function (retry-style code)
+	Stmts     []atStmt `json:"stmts"`
 }
 
 type atCase struct {
-	Name    string     `json:"name"`
-	Tables  []*atTable `json:"-"`
-	DDL     []string   `json:"tables"`
-	Groups  []atGroup  `json:"program"`
-	Feat    map[string]string `json:"features"`
+	Name   string            `json:"name"`
+	Tables []*atTable        `json:"-"`
+	DDL    []string          `json:"tables"`
+	Groups []atGroup         `json:"program"`
+	Feat   map[string]string `json:"features"`
 }
 
 func (c *atCase) shape() string {
